@@ -49,7 +49,11 @@ func spanKey(id any) string {
 }
 
 // Analyze indexes all blocks by row identity and compares every row with the submitted rows.
-func Analyze(items []*Item, blocks []*Block) *Analysis {
+func Analyze(items []*Item, blocks []*Block) *Analysis { return AnalyzeOpts(items, blocks, false) }
+
+// AnalyzeOpts: with ignoreUnknown, rows that belong to no item with expectations (rows produced
+// by hostile-but-accepted bodies) are not judged; rows claiming a known stream/span/profile are.
+func AnalyzeOpts(items []*Item, blocks []*Block, ignoreUnknown bool) *Analysis {
 	a := &Analysis{Items: items, Blocks: blocks, Ix: BuildIndex(blocks), Occ: map[string][]Occurrence{}, Owner: map[string]int{}, Expected: map[int]map[string]int{}}
 	sidOwner := map[string]int{}
 	spanOwner := map[string]int{}
@@ -127,7 +131,7 @@ func Analyze(items []*Item, blocks []*Block) *Analysis {
 				}
 				add(k, owner, i)
 				if torn || !known || a.Expected[owner][k] == 0 {
-					if !known && sid == "" && len(items) > 0 && allHostileOrUnknown(items) {
+					if !known && ignoreUnknown {
 						continue
 					}
 					a.Foreign = append(a.Foreign, fmt.Sprintf("block %d (%s) row %d: {type %d fp %d ts %d line %q value %v} is not a submitted row (stream of fp: %q)", b.Seq, b.Table, i, tp, fp, ts, clipS(line, 60), val, sid))
@@ -157,7 +161,9 @@ func Analyze(items []*Item, blocks []*Block) *Analysis {
 				add(k, owner, i)
 				sp := spanByID[id]
 				if sp == nil {
-					a.Foreign = append(a.Foreign, fmt.Sprintf("block %d (%s) row %d: span id %s was never submitted", b.Seq, b.Table, i, id))
+					if !ignoreUnknown {
+						a.Foreign = append(a.Foreign, fmt.Sprintf("block %d (%s) row %d: span id %s was never submitted", b.Seq, b.Table, i, id))
+					}
 					continue
 				}
 				var diffs []string
@@ -197,7 +203,9 @@ func Analyze(items []*Item, blocks []*Block) *Analysis {
 				add(k, owner, i)
 				sp := spanByID[id]
 				if sp == nil {
-					a.Foreign = append(a.Foreign, fmt.Sprintf("block %d (%s) row %d: tag row for span id %s that was never submitted", b.Seq, b.Table, i, id))
+					if !ignoreUnknown {
+						a.Foreign = append(a.Foreign, fmt.Sprintf("block %d (%s) row %d: tag row for span id %s that was never submitted", b.Seq, b.Table, i, id))
+					}
 					continue
 				}
 				var diffs []string
@@ -248,7 +256,9 @@ func Analyze(items []*Item, blocks []*Block) *Analysis {
 				}
 				add(k, owner, i)
 				if !known {
-					a.Foreign = append(a.Foreign, fmt.Sprintf("block %d (%s) row %d: profile row with unknown rid %q", b.Seq, b.Table, i, rid))
+					if !ignoreUnknown {
+						a.Foreign = append(a.Foreign, fmt.Sprintf("block %d (%s) row %d: profile row with unknown rid %q", b.Seq, b.Table, i, rid))
+					}
 					continue
 				}
 				pc := items[owner].Prof
@@ -313,8 +323,6 @@ func Analyze(items []*Item, blocks []*Block) *Analysis {
 	sort.Strings(a.Dup)
 	return a
 }
-
-func allHostileOrUnknown(items []*Item) bool { return false }
 
 func derivedTagKey(k string) bool {
 	switch k {
